@@ -663,6 +663,35 @@ def library_traces(ck, qr, numpy):
                           event=ev, state=rej["state"][:600]),
                      dict(test=tlabels[rej["tid"] - 1]))
 
+    # the shipped example scripts under the tracer
+    tr3 = BasisTracer()
+    tr3.install()
+    try:
+        etraces, elabels, eouts, eskip = repotests.run_examples_under(
+            tr3, thorough=ck.thorough)
+    finally:
+        tr3.uninstall()
+    for lab, t, o in zip(elabels, etraces, eouts):
+        ck.case("example-trace", lab, nontrivial=len(t) >= 2,
+                sample=dict(script=lab, events=len(t), outcome=o))
+    if eskip:
+        ck.note("%d example scripts touch more than 60 managed objects and "
+                "were not validated" % eskip)
+    if len(etraces) < 4:
+        raise MachineryFailure("only %d example scripts produced basis "
+                               "events" % len(etraces))
+    rej = ck.validate_traces("BasisTrace", "BasisTrace.cfg", etraces,
+                             workers=8)
+    if rej:
+        t = etraces[rej["tid"] - 1]
+        ev = t[min(rej["l"], len(t)) - 1]
+        ck.violation("example-" + str(rej["violated"]),
+                     "extrace:%s:%s" % (rej["violated"], ev.get("ev")),
+                     dict(script=elabels[rej["tid"] - 1],
+                          event_index=rej["l"], event=ev,
+                          state=rej["state"][:600]),
+                     dict(script=elabels[rej["tid"] - 1]))
+
     # negative control of the binding: an exit that does not restore the
     # depth must be rejected
     bad = [[dict(ev="enter", obj="o0", oldtag=0, prot=False, tag=0, depth=1,
